@@ -107,6 +107,13 @@ class Namespace:
         self.members = members or {}
 
 
+class Havoc:
+    """binding of a variable that the body of a loop under an invariant rule assigns or mutates and whose value at an arbitrary
+    iteration the loop contract does not describe: reading it is outside the model (never a stale pre-loop value)"""
+    def __init__(self, name, loop):
+        self.name, self.loop = name, loop
+
+
 class GenVal:
     """Lazy generator expression."""
     def __init__(self, node, env):
@@ -549,13 +556,19 @@ class Interp:
     def lookup(self, name, env):
         e = env
         if name in e.local:
-            return e.local[name]
+            v = e.local[name]
+            if isinstance(v, Havoc):
+                raise Unsupported('loop-carried variable %r is read but not described by the contract of loop [%s]' % (v.name, v.loop))
+            return v
         if name in e.localnames:
             raise self.exc('UnboundLocalError', name)
         c = e.closure
         while c is not None:
             if name in c.local:
-                return c.local[name]
+                v = c.local[name]
+                if isinstance(v, Havoc):
+                    raise Unsupported('loop-carried variable %r is read but not described by the contract of loop [%s]' % (v.name, v.loop))
+                return v
             c = c.closure
         return self.world.module_global(self, env.module, name)
 
@@ -645,6 +658,11 @@ class Interp:
             raise Unsupported('call depth exceeded in %s' % f.qualname)
         try:
             node = f.node
+            for d in getattr(node, 'decorator_list', []):
+                dn = ast.unparse(d)
+                if dn not in ('classmethod', 'staticmethod', 'abc.abstractmethod', 'abstractmethod'):
+                    # what runs is the decorator's wrapper (memo tables, argument rewriting ...), not this body
+                    raise Unsupported('decorator @%s on %s is not modelled' % (dn, f.qualname))
             defenv = Env({}, f, f.closure, f.module, set())
             local = self.bind_args(node, args, kwargs, defenv)
             if isinstance(node, ast.Lambda):
@@ -673,6 +691,14 @@ class Interp:
             h = w.extern_attr(self, v, name)
             if h is not NotImplementedVal:
                 return h
+            if getattr(v.cls, 'node', None) is None and v.cls.name in getattr(w, 'abstract', {}):
+                # an abstract stand-in for an external object (RDKit molecule, numpy array ...): the real object may well have the
+                # attribute -- not knowing it is a limit of the model, never a python AttributeError
+                raise Unsupported('abstract %s has no model for attribute %r' % (v.cls.name, name))
+            if v.origin == 'param' and getattr(v.cls, 'node', None) is not None and not getattr(v, 'complete', False):
+                # an object of a repository class that the contract built field by field (not through its constructor): a field the
+                # contract did not list is unknown, not absent
+                raise Unsupported('field %r of the symbolic %s object is not part of the contract state' % (name, v.cls.name))
             raise self.exc('AttributeError', name)
         if isinstance(v, ClassInfo):
             if name == '__name__':
